@@ -43,7 +43,8 @@ def gen_items(rng, path):
         if k < 0.04:
             items.append(('e',))        # MESSAGE with empty binary payload
         elif k < 0.62:
-            items.append(('m', rng.choice(['text', 'json', 'binary'])))
+            items.append(('m', rng.choice(['text', 'json', 'binary', 'text',
+                                           'json', 'binary', 'float'])))
         elif k < 0.72:
             items.append(('p',))
         elif k < 0.78:
